@@ -51,6 +51,14 @@ def generate(rng, tier, index):
     triples = gen.retype(gen.ensure_class(triples), tp)
     family = "store" if rng.random() < 0.5 else "document"
     target = gen.gen_target(rng, triples, allow_shape_map=False, type_prop=tp)
+    if family == "document" and not bn and rng.random() < 0.15:
+        # plain node selectors (no query is evaluated); some selected nodes only ever occur as objects, so their
+        # shape ends up empty and is removed together with the constraints that point to it
+        subs = sorted({t[0][1] for t in triples if t[0][0] == "i"})
+        objs = sorted({t[2][1] for t in triples if t[2][0] == "i" and t[2][1].startswith("http") and t[1][1] != tp} - set(subs))
+        items = ["<%s>@<http://sh.org/A>" % x for x in rng.sample(subs, min(len(subs), rng.randint(1, 3)))]
+        items += ["<%s>@<http://sh.org/B>" % x for x in rng.sample(objs, min(len(objs), rng.randint(0, 3)))]
+        target = {"shape_map_raw": "\n".join(items)}
     options = gen.gen_options(rng, allow_inverse=True)
     if tp != gen.RDF_TYPE:
         options["instantiation_property"] = tp
@@ -141,7 +149,7 @@ def _judge(scen, ref, out, oracle):
     relaxed = compare_texts(ref.text, out.text, ties=ties, demand="L2", contradiction_check=cc)
     if relaxed is not None:
         vs.append(violation(oracle, relaxed.klass(), relaxed.detail))
-    elif strict.level == "L1":
+    elif strict.level in ("L1", "L0"):
         # evidence-set equality is required everywhere by the statement; the difference is confined to
         # frequency-tied groups and contradicts no fact: the predicted behaviour of the known finding
         vs.append(violation(oracle, strict.klass() + ":inside_tied_groups", strict.detail, "tie_demotion_changes_visible_facts"))
